@@ -758,9 +758,14 @@ def history_case(name, rng, tier, variant=None):
         if kind.startswith("zero:"):
             k0 = kind[5:]
             b[k0] = np.zeros_like(np.array(allA[k0], dtype=float))
+        if kind.startswith("only:"):
+            # exactly one input differs from A (a cache keyed on the other inputs would go stale)
+            k0 = kind[5:]
+            b = {k: (b[k] if k == k0 else np.array(v, dtype=float).copy()) for k, v in allA.items()}
         return b
     big = [k for k in innames if np.asarray(allA[k]).size > 1]
-    kinds = ["zero:" + k for k in big] + ["perturbed", "same"]
+    small = [k for k in innames if np.asarray(allA[k]).size == 1]
+    kinds = ["zero:" + k for k in big] + ["perturbed", "same"] + ["only:" + k for k in small] + ["only:" + k for k in big]
     kind = kinds[int(rng.integers(len(kinds)))] if variant is None else kinds[variant % len(kinds)]
     B = perturbed(kind)
     want_jac = c.get("jac", True) and sp["jac"]
@@ -1050,3 +1055,46 @@ class Discard(Exception):
     """raised by an oracle when the generated case is outside the property's quantifier"""
 from . import oracles_aero  # noqa: F401,E402
 from . import oracles_struct  # noqa: F401,E402
+
+
+# ---------------------------------------------------------------------------------------
+# C04  the geometric design variables act identically on the half and on the full description
+# ---------------------------------------------------------------------------------------
+@oracle("C04", "half_vs_full_geometry_dvs")
+def c04_geometry_dvs(rng, tier):
+    """the same surface dictionary (taper, sweep, dihedral, span, chord / twist distributions with equal control points)
+    as a symmetric half model and as a full-span model: the left half of the full mesh is the half mesh"""
+    from openaerostruct.geometry.utils import generate_mesh
+    nx = int(rng.choice([2, 3])); ny2 = int(rng.choice([3, 4, 5]))
+    span = float(rng.uniform(6, 14)); chord = float(rng.uniform(0.8, 2.0))
+    base = dict(num_x=nx, num_y=2 * ny2 - 1, wing_type="rect", span=span, root_chord=chord, span_cos_spacing=float(rng.uniform(0, 1)))
+    half = np.array(generate_mesh(dict(base, symmetry=True)), dtype=float)
+    full = np.array(generate_mesh(dict(base, symmetry=False)), dtype=float)
+    dvs = {}
+    which = [k for k in ("taper", "sweep", "dihedral", "span", "chord_cp", "twist_cp") if rng.uniform() < 0.6] or ["taper"]
+    if "taper" in which:
+        dvs["taper"] = float(rng.uniform(0.3, 0.9))
+    if "sweep" in which:
+        dvs["sweep"] = float(rng.uniform(-20, 30))
+    if "dihedral" in which:
+        dvs["dihedral"] = float(rng.uniform(-5, 10))
+    if "span" in which:
+        dvs["span"] = span * float(rng.uniform(0.7, 1.4))
+    if "chord_cp" in which:
+        dvs["chord_cp"] = np.full(3, float(rng.uniform(0.6, 1.5)))
+    if "twist_cp" in which:
+        dvs["twist_cp"] = np.full(3, float(rng.uniform(-4, 4)))
+    out = []
+    def surf(mesh, sym):
+        s = dict(name="wing", symmetry=sym, S_ref_type="wetted", mesh=mesh.copy())
+        s.update({k: (np.array(v) if isinstance(v, np.ndarray) else v) for k, v in dvs.items()})
+        return s
+    mh = _run_geometry(surf(half, True)); mf = _run_geometry(surf(full, False))
+    case = dict(nx=nx, ny_half=ny2, dvs={k: (float(np.atleast_1d(v)[0])) for k, v in dvs.items()})
+    if relerr(mf[:, :ny2], mh) > 1e-10:
+        out.append(_fail("the geometry group deforms the half model and the left half of the full-span model differently",
+                         mf[:, :ny2][:, 0].ravel()[:6], mh[:, 0].ravel()[:6], **case))
+    mirrored = mf[:, ::-1].copy(); mirrored[:, :, 1] *= -1
+    if relerr(mirrored, mf) > 1e-10:
+        out.append(_fail("the deformed full-span mesh of a mirror-symmetric wing is not mirror symmetric", mirrored[0, 0], mf[0, 0], **case))
+    return out
